@@ -119,7 +119,8 @@ contract("Sequence.overwrite_absolute_messages", params={"self": "ref:Sequence",
                   ("same_messages_when_sorted", f"len({A}) == len(messages)")],
          loops={"L0": dict(fingerprint="for msg in messages", inv=[
              ("building", f"not is_none(abs) and fresh(abs) and fresh(abs._messages) and abs._messages != messages and len(abs._messages) == i"),
-             ("subset", "forall(0, len(abs._messages), lambda a: exists(0, i, lambda b: abs._messages[a] == messages[b]))"),
+             # (what has been inserted so far is none of the messages still to come: gives distinctness without an existential)
+             ("unvisited", "forall(0, len(abs._messages), lambda a: forall(i, len(messages), lambda b: abs._messages[a] != messages[b]))"),
              ("wf", WF_ABS("abs._messages"))])},
          props=["C04"])
 contract("Sequence.overwrite_relative_messages", params={"self": "ref:Sequence", "messages": "list:ref:Message"}, allocates=True,
